@@ -537,6 +537,15 @@ class Gen:
             rng.choice(bt).append({'t': None, 'prio': 5, 'op': 'clear_data',
                                    'label': rng.choice([None, None, 'level', 'received_part', 'resource_update',
                                                         'supplied_new_part'])})
+        if p.get('p_new_collected') and rng.random() < p['p_new_collected']:
+            # fresh collected_parts lists for the sinks: between two runs, or from an event
+            e = {'t': None, 'prio': 5, 'op': 'new_collected'}
+            if len(segs) >= 2 and rng.random() < 0.6:
+                bt = spec.setdefault('between', [[] for _ in range(len(segs) - 1)])
+                rng.choice(bt).append(e)
+            else:
+                spec['script'] = sorted(spec['script'] + [dict(e, t=grid_time(rng, horizon * 0.7), prio=rng.choice(PRIOS))],
+                                        key=lambda x: x['t'])
         if len(segs) >= 2 and rng.random() < p.get('p_zero_run', 0.25):
             # a zero-length simulate() call right after operations that schedule events for the current instant
             k = rng.randrange(len(segs) - 1)
@@ -739,6 +748,15 @@ class Gen:
                 ops.append({'t': t1, 'prio': r2.choice(PRIOS), 'op': 'sched_pause', 'sched': it['id']})
                 ops.append({'t': min(horizon, t1 + r2.choice([0.25, 0.75, 1.5, 3, 0])), 'prio': r2.choice(PRIOS),
                             'op': 'sched_resume', 'sched': it['id']})
+        # an operating schedule that also lists the SOURCE among the devices whose input it closes and reopens
+        # (block_input on a source closes nothing - it has no input - and reopening it must change nothing either)
+        for it in self.items:
+            if it['kind'] == 'source' and r2.random() < p.get('p_block_source', 0):
+                for _ in range(r2.choice([1, 2, 3])):
+                    t1 = grid_time(r2, horizon * 0.9)
+                    ops.append({'t': t1, 'prio': r2.choice(PRIOS), 'op': 'block', 'target': it['id']})
+                    ops.append({'t': min(horizon, t1 + r2.choice([0.5, 1, 2.5, 6])), 'prio': r2.choice(PRIOS),
+                                'op': 'unblock', 'target': it['id']})
         ops.sort(key=lambda e: e['t'])
         return ops
 
@@ -894,6 +912,24 @@ def generate_shared_cell(seed, tie='prng'):
         items.append({'id': f'K{k}', 'kind': 'sink', 'up': [f'GP{k}'], 'ct': 0, 'collect': False})
     return {'resources': {}, 'items': items, 'horizon': [float(rng.choice([20, 30]))], 'script': [], 'tie': tie,
             'seed': seed, 'max_events': 20000, 'default_names': True, 'profile': 'shared_cell'}
+
+
+def generate_conwip(seed, tie='prng'):
+    """source -> buffer -> station -> sink where the station's receive callback puts a hand-made job into the buffer it
+    has just taken a part from (Buffer.give_part called in the middle of the buffer's release); long enough for a few
+    hundred releases."""
+    rng = random.Random(core.stable_int('conwip', seed))
+    ct = rng.choice([0.25, 0.5, 0.5, 1])
+    items = [{'id': 'S1', 'kind': 'source', 'ct': rng.choice([0, ct, 4 * ct]), 'budget': rng.choice([2, 4, 6, None]),
+              'values': [1], 'qualities': [1]},
+             {'id': 'B2', 'kind': 'buffer', 'up': ['S1'], 'cap': rng.choice([4, 6, 9, None]),
+              'delay': rng.choice([0, 0.5, ct, 2 * ct])},
+             {'id': 'H3', 'kind': 'handler', 'up': ['B2'], 'ct': ct, 'res': None, 'conwip': 'B2'},
+             {'id': 'K4', 'kind': 'sink', 'up': ['H3'], 'ct': 0, 'collect': False}]
+    if items[0]['ct'] == 0 and items[0]['budget'] is None:
+        items[0]['budget'] = 5          # (an unlimited zero-cycle source in front of an unbounded queue never ends)
+    return {'resources': {}, 'items': items, 'horizon': [float(rng.choice([80, 120, 200]))], 'script': [], 'tie': tie,
+            'seed': seed, 'max_events': 60000, 'profile': 'conwip'}
 
 
 def generate_blocked_paths(seed, tie='prng'):
